@@ -94,6 +94,7 @@ class World:
         self.step = 0
         self.states = {}        # saved numpy global states (np.perturb getstate/setstate)
         self.caller_err = None  # the simulated caller's numpy floating-point error state (None: numpy's default)
+        self.caller_print = None    # the simulated caller's numpy print options (None: numpy's defaults)
         self.err_changed = []   # library calls that left that process-global state changed
         # process-global state of the system under test, seeded from the run seed
         ent = self.streams["entropy"]
@@ -115,6 +116,11 @@ class World:
         def body():
             # (numpy's error state is per thread / context: the caller's settings are put in place where the call runs)
             harness_err = np.seterr(**self.caller_err) if self.caller_err else None
+            harness_print = None
+            if self.caller_print:
+                harness_print = np.get_printoptions()
+                np.set_printoptions(**self.caller_print)
+                expected_print = np.get_printoptions()
             try:
                 v = fn(*args, **kwargs)
                 return ("ok", v)
@@ -125,6 +131,10 @@ class World:
             except Exception as e:
                 return ("exc", e)
             finally:
+                if harness_print is not None:
+                    if repr(np.get_printoptions()) != repr(expected_print):
+                        self.err_changed.append({"process_global_state": ["printoptions"]})
+                    np.set_printoptions(**{k: v for k, v in harness_print.items() if k in DEFAULT_PRINTOPTIONS})
                 if harness_err is not None:
                     now = np.geterr()
                     if any(now[k] != v for k, v in self.caller_err.items()):
@@ -306,9 +316,27 @@ def op_np_seterr(self, rec):
 
 World.op_np_seterr = op_np_seterr
 
+DEFAULT_PRINTOPTIONS = dict(edgeitems=3, infstr="inf", linewidth=75, nanstr="nan", precision=8, suppress=False,
+                            threshold=1000, formatter=None)
+
+
+def op_np_printoptions(self, rec):
+    """The application sets numpy's print options (process-global; what str() of an array shows).  state None: the
+    defaults."""
+    # (numpy keeps print options per thread / context, like the error state: they are put in place where each
+    #  library call runs, see World.call)
+    self.caller_print = dict(DEFAULT_PRINTOPTIONS, **rec["state"]) if rec.get("state") else None
+    self.faults["caller.printoptions"] += 1
+    self.probes["caller.changed_numpy_print_options"] += 1
+    return "ok:-"
+
+
+World.op_np_printoptions = op_np_printoptions
+
 SHARED_OPS = {
     "py.import": World.op_py_import,
     "np.seterr": World.op_np_seterr,
+    "np.printoptions": World.op_np_printoptions,
     "np.perturb": World.op_np_perturb,
     "py.random": World.op_py_random,
     "entropy.draw": World.op_entropy_draw,
